@@ -54,8 +54,17 @@ def main():
     slots = int(arg("--slots", "6"))
     props = (arg("--props") or ",".join("C%02d" % i for i in range(1, 21))).split(",")
     items = []
-    for d in sorted(glob.glob(os.path.join(VERIF, kind, "*", "patch.diff"))):
+    pats = sorted(glob.glob(os.path.join(VERIF, kind, "*", "patch.diff")))
+    g = arg("--glob")
+    if g:
+        # deliveries not filed yet, e.g. --glob '/tmp/w2_C*/out/*/patch.diff'
+        pats = sorted(glob.glob(g))
+        kind = "glob"
+    for d in pats:
         sid = os.path.basename(os.path.dirname(d))
+        if g:
+            parts = d.split("/")
+            sid = "%s-%s" % (parts[2], parts[-2])
         if only and only not in sid:
             continue
         items.append((sid, d))
